@@ -171,9 +171,9 @@ Example C14_nonvacuous :
   s_vips (run ex_c (firstn 14 ex_ops) empty_state) = [(167772161, 1); (167772162, 2)] /\
   s_vips (run ex_c ex_ops empty_state) = [(167772161, 1)] /\
   s_rules (run ex_c ex_ops empty_state) = [] /\ s_specs (run ex_c ex_ops empty_state) = [] /\
-  undisturbed may_remove_vip ex_c ex_ops empty_state 167772161 1 = false /\
-  undisturbed may_remove_vip ex_c (skipn 5 ex_ops) (run ex_c (firstn 5 ex_ops) empty_state) 167772161 1 = true.
-Proof. vm_compute. repeat split; constructor. Qed.
+  undisturbed may_remove_vip ex_c (skipn 5 ex_ops) (run ex_c (firstn 5 ex_ops) empty_state) 167772161 1 = true /\
+  undisturbed may_remove_vip ex_c (skipn 6 ex_ops) (run ex_c (firstn 6 ex_ops) empty_state) 167772162 2 = false.
+Proof. split; [exact (wf_empty ex_c)|]. vm_compute. repeat split. Qed.
 
 (** service schedule: create, repeat, restart + replay + synchronize frees the device that was not replayed *)
 Definition ex_svc :=
